@@ -171,6 +171,23 @@ def run_case(run, c, reply, tbl, formula, Formula, me):
             if not (close(f.density, g.density) and close(f.density, h.density)):
                 viol("tag, keyword and attribute give different densities",
                      tag=f.density, keyword=g.density, attribute=h.density)
+            # the same tag on other carriers: a parenthesised group, a parenthesised wt% / vol% mixture
+            flat = render_flat(s, tbl)
+            for body in ("(%s)" % flat, "(30%%wt %s // D2O@1.1)" % flat, "((%s)2H[2]O[18])" % flat,
+                         "(25%%vol %s@2.5 // H2O@1n)" % flat):
+                try:
+                    m = formula(body)
+                except Exception:  # noqa: this carrier does not accept the composition (e.g. zero mass)
+                    continue
+                mk = {pyside.key_of(a): Fraction(n) for a, n in m.atoms.items()}
+                r2 = exact_ratio(mk, tbl, me)
+                if not r2:
+                    continue
+                t = formula(body + "@" + repr(c["tagv"]) + c["tag"])
+                want = float(c["tagv"] / r2) if c["tag"] == "n" else float(c["tagv"])
+                if not close(t.density, want):
+                    viol("density tag on %r does not mean what it means on a plain formula" % body,
+                         carrier=body, got=t.density, expected=want)
     elif k == "attr":
         f = Formula(structure=pyside.struct_objs(s, tbl))
         if c["nat"] is not None:
